@@ -15,6 +15,7 @@ mod polyops;
 mod c01;
 mod c02;
 mod c11;
+mod c16;
 
 use std::io::{BufRead, Write};
 use util::Obs;
@@ -27,6 +28,7 @@ fn table(prop: &str) -> Option<(GenFn, RunFn)> {
         "C01" => Some((c01::generate, c01::run)),
         "C02" => Some((c02::generate, c02::run)),
         "C11" => Some((c11::generate, c11::run)),
+        "C16" => Some((c16::generate, c16::run)),
         "POLY" => Some((polyops::generate, polyops::run)),
         _ => None,
     }
